@@ -9,7 +9,7 @@ use crate::rng::Rng;
 use crate::world::*;
 
 pub const WORDS: &[&str] = &[
-    "alpha", "beta", "gamma", "delta", "kappa", "omega", "zeta", "eta", "theta", "iota", "lambda",
+    "alpha", "beta", "gamma", "delta", "kappa", "omega", "zeta", "eta", "theta", "iota", "lemma",
     "sigma",
 ];
 pub const NUMBERS: &[&str] = &["2", "10", "9.5", "-3", "0", "7", "100", "3.25", "-10", "42"];
